@@ -43,6 +43,17 @@ func VerifPCSet(pc *PrintCtx, e *Entry, lvl Level, ts time.Time, frame uintptr, 
 	pc.set(e, lvl, ts, frame, msg, kvps)
 }
 
+func verifPCFieldByName(pc *PrintCtx, name string) (int, reflect.Value, bool) {
+	t := reflect.TypeOf(PrintCtx{})
+	for i := 0; i < t.NumField(); i++ {
+		if t.Field(i).Name == name {
+			_, w := verifPCField(pc, i)
+			return i, w, true
+		}
+	}
+	return -1, reflect.Value{}, false
+}
+
 func verifPCField(pc *PrintCtx, i int) (string, reflect.Value) {
 	v := reflect.ValueOf(pc).Elem()
 	f := v.Field(i)
@@ -67,17 +78,22 @@ func VerifPCDump(pc *PrintCtx) map[string]string {
 		name, w := verifPCField(pc, i)
 		switch name {
 		case "kvps":
+			as, isAttrs := w.Interface().(Attrs)
+			if !isAttrs {
+				out[name] = fmt.Sprintf("%#v", w.Interface())
+				break
+			}
 			s := ""
-			for _, a := range pc.kvps {
+			for _, a := range as {
 				if a == nil {
 					s += "<nil>;"
 				} else {
 					s += fmt.Sprintf("%s=%v;", a.Key(), a.Value())
 				}
 			}
-			out[name] = fmt.Sprintf("len=%d %s", len(pc.kvps), s)
+			out[name] = fmt.Sprintf("len=%d %s", len(as), s)
 		case "buf":
-			out[name] = fmt.Sprintf("%q", pc.buf)
+			out[name] = fmt.Sprintf("%q", w.Interface())
 		default:
 			out[name] = fmt.Sprintf("%#v", w.Interface())
 		}
@@ -144,56 +160,74 @@ func VerifPCPoison(pc *PrintCtx, field string) []string {
 			continue
 		}
 		ok := true
+		// (every field is written through reflection, never by name: a field that is renamed, retyped or removed in
+		// the source must not stop this file from compiling - it is then poisoned by kind, see the default branch)
+		set := func(v any) {
+			defer func() {
+				if recover() != nil {
+					ok = verifPoisonGeneric(w)
+				}
+			}()
+			w.Set(reflect.ValueOf(v).Convert(w.Type()))
+		}
+		junk := func() {
+			if _, bw, found := verifPCFieldByName(pc, "buf"); found {
+				func() {
+					defer func() { _ = recover() }()
+					bw.Set(reflect.ValueOf([]byte("JUNK-FROM-AN-EARLIER-RECORD\n")).Convert(bw.Type()))
+				}()
+			}
+		}
 		switch name {
 		case "buf":
-			pc.buf = append(pc.buf[:0], "JUNK-FROM-AN-EARLIER-RECORD\n"...)
+			junk()
 		case "off":
-			pc.off = 3
-			if len(pc.buf) < 3 { // a read offset is never beyond the contents
-				pc.buf = append(pc.buf[:0], "JUNK-FROM-AN-EARLIER-RECORD\n"...)
+			set(3)
+			if _, bw, found := verifPCFieldByName(pc, "buf"); found && bw.Kind() == reflect.Slice && bw.Len() < 3 { // a read offset is never beyond the contents
+				junk()
 			}
 		case "lastRead":
-			pc.lastRead = opReadRune3
-		case "noQuoted":
-			pc.noQuoted = !pc.noQuoted
-		case "jsonMode":
-			pc.jsonMode = !pc.jsonMode
-		case "noColor":
-			pc.noColor = !pc.noColor
+			set(opReadRune3)
+		case "noQuoted", "jsonMode", "noColor":
+			if w.Kind() == reflect.Bool {
+				w.SetBool(!w.Bool())
+			} else {
+				ok = verifPoisonGeneric(w)
+			}
 		case "layout":
-			pc.layout = "Mon Jan _2 2006"
+			set("Mon Jan _2 2006")
 		case "utcTime":
-			pc.utcTime = 1
+			set(1)
 		case "lvl":
-			pc.lvl = ErrorLevel
+			set(ErrorLevel)
 		case "msg":
-			pc.msg = "old message\nsecond line\n"
+			set("old message\nsecond line\n")
 		case "firstLine":
-			pc.firstLine = "x"
+			set("x")
 		case "restLines":
-			pc.restLines = "junk\nlines"
+			set("junk\nlines")
 		case "eol":
-			pc.eol = true
+			set(true)
 		case "kvps":
-			pc.kvps = Attrs{NewAttr("poison", 1), NewAttr("zz", "old")}
+			set(Attrs{NewAttr("poison", 1), NewAttr("zz", "old")})
 		case "clr":
-			pc.clr = 31
+			set(31)
 		case "bg":
-			pc.bg = 44
+			set(44)
 		case "now":
-			pc.now = time.Unix(1, 0)
+			set(time.Unix(1, 0))
 		case "stackFrame":
-			pc.stackFrame = reflect.ValueOf(VerifPoolGet).Pointer() + 1
+			set(reflect.ValueOf(VerifPoolGet).Pointer() + 1)
 		case "cachedSource":
-			pc.cachedSource = Source{Function: "junk/pkg.junkFn", File: "/junk/file.go", Line: 99}
+			set(Source{Function: "junk/pkg.junkFn", File: "/junk/file.go", Line: 99})
 		case "prefix":
-			pc.prefix = "zz"
+			set("zz")
 		case "inGroupedMode":
-			pc.inGroupedMode = true
+			set(true)
 		case "skipFirstSep":
-			pc.skipFirstSep = true
+			set(true)
 		case "valueStringer":
-			pc.valueStringer = verifHostile
+			set(verifHostile)
 		default:
 			ok = verifPoisonGeneric(w) // a field this file does not know: by kind
 		}
